@@ -7,6 +7,7 @@ package c11
 // sequential order, and is not judged when they disagree (sequential behaviour is C10's business).
 
 import (
+	"os"
 	"fmt"
 	"net"
 	"runtime"
@@ -46,7 +47,10 @@ var linKeys = []string{"p256b", "ed25519b", "p384a"}
 
 const linShared = 3 // bit of the preloaded key
 
-type linState struct{ R, M uint8 }
+type linState struct {
+	R, M   uint8
+	Locked bool
+}
 
 type linRes struct {
 	OK   bool
@@ -64,6 +68,24 @@ func (s linState) shown() uint16 { return uint16(s.R) | uint16(s.M)<<4 }
 
 func linApply(s linState, op LinOp) (linState, linRes) {
 	b := uint8(1) << uint(op.Key)
+	switch op.Kind {
+	case "lock":
+		if s.Locked {
+			return s, linRes{}
+		}
+		s.Locked = true
+		return s, linRes{OK: true}
+	case "unlock":
+		if !s.Locked {
+			return s, linRes{}
+		}
+		s.Locked = false
+		return s, linRes{OK: true}
+	}
+	if s.Locked {
+		// a locked agent lists nothing (without error) and refuses everything else
+		return s, linRes{OK: op.Kind == "list"}
+	}
 	switch op.Kind {
 	case "add":
 		s.R |= b
@@ -195,6 +217,10 @@ func (w *linWorld) do(ag yubiagent.YubiAgent, op LinOp, tag string) (res linRes,
 			res.OK = ag.Remove(vh.SSHPub(key)) == nil
 		case "removeall":
 			res.OK = ag.RemoveAll() == nil
+		case "lock":
+			res.OK = ag.Lock([]byte("pw")) == nil
+		case "unlock":
+			res.OK = ag.Unlock([]byte("pw")) == nil
 		case "list":
 			ks, e := ag.List()
 			res.OK = e == nil
@@ -240,7 +266,7 @@ func (r linRes) String() string {
 
 // explain searches for a sequential order of the routines' operations under which the model gives
 // every observed result, the observed final listing and the observed final content of the underlying agent.
-func explain(c LinCase, obs [][]linRes, init linState, finalList uint16, finalR uint8) bool {
+func explain(c LinCase, obs [][]linRes, init linState, finalUnlockOK bool, finalList uint16, finalR uint8) bool {
 	type node struct {
 		pos [6]uint8
 		st  linState
@@ -270,9 +296,14 @@ func explain(c LinCase, obs [][]linRes, init linState, finalList uint16, finalR 
 			}
 		}
 		if done {
-			f := n.st.purge()
-			if f.shown() == finalList && f.R == finalR {
-				return true
+			// the harness unlocks (succeeds iff the agent was left locked), then lists
+			f := n.st
+			if f.Locked == finalUnlockOK {
+				f.Locked = false
+				f = f.purge()
+				if f.shown() == finalList && f.R == finalR {
+					return true
+				}
 			}
 		}
 		dead[n] = true
@@ -292,7 +323,26 @@ func describe(c LinCase, obs [][]linRes) string {
 	return sb.String()
 }
 
+// forModel: through a client connection Signers() is the agent client's listing of identities (it
+// sends a list request), so that is what the model applies for it.
+func forModel(c LinCase) LinCase {
+	m := c
+	m.Routines = make([][]LinOp, len(c.Routines))
+	for g, ops := range c.Routines {
+		m.Routines[g] = append([]LinOp(nil), ops...)
+		if c.Via[g] == "conn" {
+			for i := range m.Routines[g] {
+				if m.Routines[g][i].Kind == "signers" {
+					m.Routines[g][i].Kind = "list"
+				}
+			}
+		}
+	}
+	return m
+}
+
 func linExec(c LinCase) (vh.Outcome, error) {
+	mc := forModel(c)
 	out := vh.Outcome{Classes: []string{fmt.Sprintf("routines=%d", len(c.Routines)), fmt.Sprintf("noUpstream=%v", c.NoUpstream)}}
 	init := linState{}
 	if c.Shared {
@@ -334,10 +384,13 @@ func linExec(c LinCase) (vh.Outcome, error) {
 			pos[g]++
 			got, bad := w.do(ags[g], op, fmt.Sprintf("seq/%d", step))
 			var want linRes
-			st, want = linApply(st, op)
-			if bad != nil || got != want || w.ringMask() != st.R {
+			st, want = linApply(st, mc.Routines[g][pos[g]-1])
+			if bad != nil || got != want || (!st.Locked && w.ringMask() != st.R) {
 				w.close()
 				out.Classes = append(out.Classes, "sequential-run-differs-from-model(not judged)")
+				if os.Getenv("VERIF_DEBUG_MODEL") != "" {
+					return out, vh.Errf("MODEL MISMATCH at step %d op %+v: got %v want %v bad %v ring %04b model %+v", step, op, got, want, bad, w.ringMask(), st)
+				}
 				return out, nil
 			}
 		}
@@ -348,7 +401,7 @@ func linExec(c LinCase) (vh.Outcome, error) {
 	for g, ops := range c.Routines {
 		for _, op := range ops {
 			switch op.Kind {
-			case "add", "addhard", "remove", "removehard", "removeall":
+			case "add", "addhard", "remove", "removehard", "removeall", "lock", "unlock":
 				writes++
 			}
 			if op.Kind == "addhard" {
@@ -426,13 +479,14 @@ func linExec(c LinCase) (vh.Outcome, error) {
 			return out, viol.err
 		}
 		w.p.Latency = nil
+		unl, _ := w.do(yubiWrap{w.shim}, LinOp{Kind: "unlock"}, "final-unlock")
 		fin, bad := w.do(yubiWrap{w.shim}, LinOp{Kind: "list"}, "final")
 		finalR := w.ringMask()
 		w.close()
 		if bad != nil || !fin.OK {
 			return out, vh.Errf("repetition %d: final listing failed: %v", r, bad)
 		}
-		if !explain(c, obs, init, fin.List, finalR) {
+		if !explain(mc, obs, init, unl.OK, fin.List, finalR) {
 			return out, vh.Errf("repetition %d: no sequential order of the operations explains what the callers observed and the final state (final listing %07b [bits 0-2 keys, 3 preloaded key, 4-6 hardware certificates], underlying agent %04b); observed:%s", r, fin.List, finalR, describe(c, obs))
 		}
 	}
@@ -447,7 +501,7 @@ func linGen(t *rapid.T) LinCase {
 	}
 	nk := rapid.IntRange(1, 3).Draw(t, "keys")
 	ng := rapid.IntRange(2, 4).Draw(t, "routines")
-	kinds := []string{"add", "add", "addhard", "addhard", "addhard", "removehard", "remove", "removeall", "list", "signers", "signhard", "signown"}
+	kinds := []string{"add", "add", "addhard", "addhard", "addhard", "removehard", "remove", "removeall", "list", "list", "signers", "signhard", "signown", "lock", "unlock"}
 	total := 0
 	for g := 0; g < ng; g++ {
 		l := fmt.Sprintf("g%d", g)
@@ -464,7 +518,7 @@ func linGen(t *rapid.T) LinCase {
 		case 1: // disruptor
 			n := rapid.IntRange(1, 3).Draw(t, l+"N")
 			for i := 0; i < n; i++ {
-				ops = append(ops, LinOp{Kind: rapid.SampledFrom([]string{"removeall", "removeall", "remove", "list", "removehard"}).Draw(t, fmt.Sprintf("%sD%d", l, i)), Key: rapid.IntRange(0, nk-1).Draw(t, fmt.Sprintf("%sDK%d", l, i))})
+				ops = append(ops, LinOp{Kind: rapid.SampledFrom([]string{"removeall", "removeall", "remove", "list", "removehard", "lock", "unlock", "lock"}).Draw(t, fmt.Sprintf("%sD%d", l, i)), Key: rapid.IntRange(0, nk-1).Draw(t, fmt.Sprintf("%sDK%d", l, i))})
 			}
 		default:
 			n := rapid.IntRange(1, 5).Draw(t, l+"N")
@@ -486,7 +540,7 @@ func linGen(t *rapid.T) LinCase {
 	return c
 }
 
-const linRule = "concurrent programs over SHARED state: 2..4 goroutines (direct or through their own served connection) x 1..6 operations from {add key, add hardware certificate, sign with it, sign with the key, remove certificate, remove key, remove-all, list, signers} on 1..3 keys that all goroutines may touch (shapes: one key's life in order / a disruptor with remove-all, remove, list / free mix), both upstream modes, underlying agent empty or holding one more key at first, underlying agent latency 0..1 ms, Gosched perturbation per operation, each program repeated (quick 4, thorough 12). Every caller's observation is recorded (success / failure, and the set of identities for list / signers). Oracle: a memoised search over all interleavings of the goroutines' sequences must find one under which a pure model of the shim's two tables (keys held by the underlying agent; hardware certificates in memory, purged when their key is gone unless the underlying agent is empty) yields every observed result, the observed final listing and the observed final content of the underlying agent; signatures verify over the caller's data; nothing unknown or duplicated is listed; race detector. The model is first validated against the real shim on one drawn sequential order of the same program and the case is not judged if they disagree. Non-trivial: >= 2 goroutines and >= 2 writing operations; class addhard-concurrent-with-removal-of-its-key counts the programs where a hardware-certificate registration races with the removal of its key."
+const linRule = "concurrent programs over SHARED state: 2..4 goroutines (direct or through their own served connection) x 1..6 operations from {add key, add hardware certificate, sign with it, sign with the key, remove certificate, remove key, remove-all, list, signers, lock, unlock} on 1..3 keys that all goroutines may touch (shapes: one key's life in order / a disruptor with remove-all, remove, list, lock, unlock / free mix), both upstream modes, underlying agent empty or holding one more key at first, underlying agent latency 0..1 ms, Gosched perturbation per operation, each program repeated (quick 4, thorough 12). Every caller's observation is recorded (success / failure, and the set of identities for list / signers). Oracle: a memoised search over all interleavings of the goroutines' sequences must find one under which a pure model of the shim's two tables (keys held by the underlying agent; hardware certificates in memory, purged when their key is gone unless the underlying agent is empty; a lock flag under which list returns nothing and every other operation fails) yields every observed result, the observed final listing and the observed final content of the underlying agent; signatures verify over the caller's data; nothing unknown or duplicated is listed; race detector. The model is first validated against the real shim on one drawn sequential order of the same program and the case is not judged if they disagree. Non-trivial: >= 2 goroutines and >= 2 writing operations; class addhard-concurrent-with-removal-of-its-key counts the programs where a hardware-certificate registration races with the removal of its key."
 
 func TestC11Sequential(t *testing.T) {
 	vh.Run(t, vh.Spec[LinCase]{Property: "C11", Name: "TestC11Sequential", Rule: linRule, Gen: linGen, Exec: linExec, Journal: true})
